@@ -78,8 +78,9 @@ def c30(check):
 def c29(check):
     check("C29", "exploration",
           "Seeded search over histories of API calls in one process image (a forked child per history): 2-5 evaluate_k_path / "
-          "evaluate_k calls with drawn quantities, band selections, k_batch, user tabulators, serially or under the simulated ray "
-          "peer with a drawn completion schedule, on drawn paths (breaks, revisited points, points outside the first cell). The "
+          "evaluate_k calls on one or two systems of equal sizes and one or two paths, with drawn quantities, band selections "
+          "(lists, arrays, ints, unsorted), k_batch, user tabulators, serially or under the simulated ray "
+          "peer with a drawn completion schedule, on drawn paths (breaks, revisited points, points outside the first cell, zoom-in segments). The "
           "value of every named quantity at every path point is computed first with fresh tabulators on a one-point Data_K; every "
           "call of the history must return exactly those values in path order, and must not raise because of an earlier call. "
           "Path construction (nodes, labels, uniform sampling, refinement, path coordinate) is checked as a by-product only.",
@@ -95,10 +96,12 @@ def c04(check):
           "Seeded search with the eigenvector-gauge nondeterminism as the injected fault: for spin-doubled random Hermitian systems "
           "(exact degeneracies, external-term matrices, random Hermitian spin matrix) a reference evaluation is compared with "
           "evaluations under the code's own random_gauge perturbation point, whose RNG the simulator seeds and whose random unitaries "
-          "it counts: evaluate_k for the named quantities and run() with AHC/Morb/Spin/DOS/CumDOS/Ohmic/BerryDipole and "
-          "TabulatorAll. The k vs k+G comparison of the same evaluations is a by-product without simulation strength.",
+          "it counts: evaluate_k for the named quantities and run() with AHC/Morb/Spin/DOS/CumDOS/Ohmic/BerryDipole (also their "
+          "tetrahedron variants) and TabulatorAll. Three system classes: everywhere-degenerate spin-doubled systems, time-reversal "
+          "symmetric spinful systems with Kramers pairs at the TRIMs only (even grids), and nearly degenerate pairs (split 1e-6 eV). "
+          "The k vs k+G comparison of the same evaluations is a by-product without simulation strength.",
           "Equality 1e-8 of max(|reference|, same quantity on the non-doubled parent); runs in which no block was rotated do not "
-          "count; degenerate subspaces are twofold (spin doubling).",
+          "count; degenerate subspaces are twofold; in the nearly-degenerate class invariance is demanded to 1e-4 of the scale.",
           "deterministic simulation: fault injection at the eigenvector-gauge perturbation point (seeded RNG, counted rotations), "
           "unperturbed evaluation as reference",
           "DESIGN.md §4 C04")
@@ -110,7 +113,7 @@ def c18(check):
           "directory, simulated process kill at a drawn file operation (between files or mid-file with torn-write cut) with or "
           "without a complete re-save, load - under every listing-order policy for the two directory listings of load_npz. The "
           "loaded system must give back lattice, centres, R-vectors, periodic, num_wann, point-group operations and every saved "
-          "matrix bit-exactly (band energies at a seeded k as by-product); after a crash without re-save loading may raise but "
+          "matrix bit-exactly, and the same band energies and Berry curvature at a seeded k; after a crash without re-save loading may raise but "
           "may not return differing parts. The _tb.dat/_hr.dat text round trips are sequential single-file formatting and are "
           "NOT addressed by this check.",
           "Process-kill model; a second save uses the same file names as the first; text formats not covered.",
